@@ -210,8 +210,13 @@ def r3_arclength(repo: Repo, rep):
         rep.check(R, ok, fi.site(), fi.fq, "left end iff U < 1/2, else right end", t[:140], "interval boundary threshold")
 
 
+def subst_env(e, p):
+    from ..flow import subst
+    return subst(e, {k: v for k, v in p.env.items() if isinstance(k, str) and "." not in k})
+
+
 def r4_mirror(repo: Repo, rep):
-    R = rep.rule("R-C11-4", "triangle: barycentric pairs with u + v >= 1 are mirrored to (1 - u, 1 - v), the others kept", floor=1,
+    R = rep.rule("R-C11-4", "triangle: barycentric pairs with u + v >= 1 are mirrored to (1 - u, 1 - v), the others kept (also inside the triangles of a triangulated polygon)", floor=3,
                  why="without (or with a wrong) mirror half of the unit-square proposals fall outside / pile up")
     tri = repo.cls(f"{DOM}.domain2D.triangle.Triangle")
     fi = tri.methods.get("_handle_sum_greater_1")
@@ -239,6 +244,37 @@ def r4_mirror(repo: Repo, rep):
     if n == 0:
         rep.undecided(R, fi.site(), fi.fq, "a mirroring path", "none")
     r4b_index_provenance(repo, rep, R)
+    # the triangles of a triangulated polygon are filled the same way: unit-square pairs, those with u + v > 1 mirrored, then used as they are
+    sp = repo.cls(f"{DOM}.domain2D.shapely_polygon.ShapelyPolygon")
+    fi = sp.methods.get("_random_points_in_triangle")
+    if fi is None:
+        rep.undecided(R, sp.module.relpath, sp.fq, "_random_points_in_triangle", "vanished: construction replaced")
+        return
+    rep.saw(fi)
+    for p in paths(fi.node):
+        if p.ret is RAISE or p.ret is None:
+            continue
+        stores = [e for e in p.events if e.kind == "store" and e.raw is not None and isinstance(e.raw.value, ast.Name)]
+        good = len(stores) == 1
+        detail = dump(stores[0].node)[:120] if stores else "no mirror store"
+        if good:
+            st = stores[0]
+            bname = st.raw.value.id
+            v = st.value
+            good = _mirror_mask(subst_env(st.raw.slice, p), dump(subst_env(ast.Name(id=bname, ctx=ast.Load()), p)), axes=("1", "-1")) and isinstance(v, ast.BinOp) and isinstance(v.op, ast.Sub) and _all_ones(v.left) \
+                and isinstance(v.right, ast.Subscript) and dump(v.right.slice) == dump(st.target.slice)
+        rep.check(R, good, fi.site(), fi.fq, "pairs[u+v > 1] = (1, 1) - pairs[u+v > 1]", detail, detail)
+        # the multipliers of the two edge vectors are the (mirrored) columns themselves - not rescaled
+        mults = []
+        for m in ast.walk(p.ret):
+            if isinstance(m, ast.BinOp) and isinstance(m.op, ast.Mult):
+                for edge, coef in ((m.left, m.right), (m.right, m.left)):
+                    if "corners" in dump(edge) and "corners" not in dump(coef):
+                        mults.append(coef)
+        plain = [isinstance(c, ast.Subscript) and isinstance(c.slice, ast.Tuple) and len(c.slice.elts) == 2 and isinstance(c.slice.elts[1], ast.Slice)
+                 and not any(isinstance(x, ast.BinOp) for x in ast.walk(c.value)) for c in mults]
+        rep.check(R, len(mults) == 2 and all(plain), fi.site(p.ret_node), fi.fq, "point = corner_0 + u * edge_1 + v * edge_2 with the two columns of the mirrored pairs",
+                  f"multipliers {[dump(c)[:50] for c in mults]}", f"multipliers {[dump(c)[:40] for c in mults]}")
 
 
 def _mask_subject(idx: ast.AST):
@@ -277,10 +313,12 @@ def r4b_index_provenance(repo: Repo, rep, R):
     return n
 
 
-def _mirror_mask(idx: ast.AST, b: str) -> bool:
-    """index selecting the pairs with u + v >= 1: M, (M,), torch.where(M) with M = sum(b, last axis) >= 1"""
+def _mirror_mask(idx: ast.AST, b: str, axes=("2", "-1")) -> bool:
+    """index selecting the pairs with u + v >= 1: M, (M,), torch.where(M), torch.where(M)[0] with M = sum(b, last axis) >= 1"""
     if isinstance(idx, ast.Tuple) and len(idx.elts) == 1:
         idx = idx.elts[0]
+    if isinstance(idx, ast.Subscript) and isinstance(idx.slice, ast.Constant) and idx.slice.value == 0 and isinstance(idx.value, ast.Call):
+        idx = idx.value
     if isinstance(idx, ast.Call) and attr_chain(idx.func) in ("torch.where", "torch.nonzero") and len(idx.args) == 1:
         idx = idx.args[0]
     if not (isinstance(idx, ast.Compare) and len(idx.ops) == 1):
@@ -295,7 +333,7 @@ def _mirror_mask(idx: ast.AST, b: str) -> bool:
     if not (isinstance(l, ast.Call) and attr_chain(l.func) == "torch.sum" and l.args and dump(l.args[0]) == b):
         return False
     ax = kwarg(l, "dim", 1) or kwarg(l, "axis")
-    return ax is not None and dump(ax) in ("2", "-1")
+    return ax is not None and dump(ax) in axes
 
 
 def _all_ones(e: ast.AST) -> bool:
@@ -508,7 +546,96 @@ def r8_gaussian(repo: Repo, rep):
         break
 
 
+def r9_boundary_grid_shares(repo: Repo, rep):
+    from ..absdom.poly import RF, NotPoly, to_rf
+    R = rep.rule("R-C11-9", "the rescaled grid requests on the two operand boundaries of a Boolean boundary are in the ratio of the operands' boundary measures", floor=1,
+                 why="equal requests give the shorter boundary a denser grid: the spacing differs from piece to piece")
+    m = repo.module("problem.domains.domainoperations.sampler_helper")
+    fi = m.functions.get("_boundary_grid_with_n")
+    if fi is None:
+        raise AnalysisError("_boundary_grid_with_n vanished")
+    rep.saw(fi)
+
+    def core(e):
+        # int(x) + 1, max(int(x), 1), round up / floor wrappers around the real-valued share
+        while True:
+            if isinstance(e, ast.Call) and attr_chain(e.func) in ("int", "math.ceil", "math.floor", "round", "torch.ceil", "torch.floor") and e.args:
+                e = e.args[0]
+            elif isinstance(e, ast.Call) and attr_chain(e.func) in ("max", "min") and len(e.args) == 2 and any(isinstance(a, ast.Constant) for a in e.args):
+                e = e.args[0] if isinstance(e.args[1], ast.Constant) else e.args[1]
+            elif isinstance(e, ast.BinOp) and isinstance(e.op, (ast.Add, ast.Sub)) and isinstance(e.right, ast.Constant):
+                e = e.left
+            else:
+                return e
+
+    def atom(n):
+        if isinstance(n, ast.Call) and isinstance(n.func, ast.Attribute) and n.func.attr in ("volume", "_get_volume") and dump(n.func.value) in ("domain_a.boundary", "domain_b.boundary"):
+            return RF.atom("A" if "domain_a" in dump(n.func.value) else "B")
+        if isinstance(n, ast.Name):
+            return RF.atom(n.id)
+        if isinstance(n, ast.Call) and attr_chain(n.func) in ("max", "min", "len", "int", "float"):
+            return RF.atom(dump(n).replace(" ", "")[:40])
+        if isinstance(n, ast.Subscript) and getattr(n, "_tuple_elt", False):
+            return RF.atom(f"t{n.slice.value}")
+        return None
+    decided = 0
+    for p in paths(fi.node):
+        if p.ret is RAISE or p.ret is None:
+            continue
+        reqs = {}
+        for e in p.events:
+            if e.value is None:
+                continue
+            for c in ast.walk(e.value):
+                if isinstance(c, ast.Call) and isinstance(c.func, ast.Attribute) and c.func.attr == "sample_grid" and dump(c.func.value) in ("domain_a.boundary", "domain_b.boundary"):
+                    nreq = kwarg(c, "n", 0)
+                    if nreq is not None and dump(nreq) != "n":
+                        reqs["A" if "domain_a" in dump(c.func.value) else "B"] = nreq
+        if set(reqs) != {"A", "B"}:
+            continue
+        decided += 1
+        try:
+            ra, rb = to_rf(core(reqs["A"]), atom), to_rf(core(reqs["B"]), atom)
+            ok = ra * RF.atom("B") == rb * RF.atom("A")
+            detail = f"request on A ~ {ra!r}, on B ~ {rb!r}"
+        except NotPoly as err:
+            rep.undecided(R, fi.site(), fi.fq, "rescaled requests are rational in the measures", str(err)[:100])
+            continue
+        rep.check(R, ok, fi.site(), fi.fq, "request_a : request_b == |boundary a| : |boundary b|", detail, detail[:150])
+        break
+    if decided == 0:
+        rep.undecided(R, fi.site(), fi.fq, "a second pass with rescaled requests on both operand boundaries", "not found")
+
+
+def r10_weighted_second_factor(repo: Repo, rep):
+    R = rep.rule("R-C11-10", "dependent product: every value of the second factor enters through the volume-weighted acceptance (_sample_uniform_b_points), also the ones that fill a shortfall", floor=1,
+                 why="values drawn directly from the second factor are uniform in b instead of proportional to the measure of the slice A(b)")
+    ci = repo.cls(f"{DOM}.domainoperations.product.ProductDomain")
+    fi = ci.methods.get("sample_random_uniform")
+    if fi is None:
+        raise AnalysisError("ProductDomain.sample_random_uniform vanished")
+    rep.saw(fi)
+    seen = 0
+    for p in paths(fi.node):
+        if p.ret is RAISE or p.ret is None:
+            continue
+        dep = [pol for g, pol, k in p.guards if dump(g) == "self._is_constant"]
+        if not dep or dep[0]:
+            continue
+        seen += 1
+        direct = [dump(c)[:70] for e in p.events if e.value is not None for c in ast.walk(e.value)
+                  if isinstance(c, ast.Call) and dump(c.func) in ("self.domain_b.sample_random_uniform", "self.domain_b.sample_grid")]
+        weighted = any(isinstance(c, ast.Call) and dump(c.func) == "self._sample_uniform_b_points" for e in p.events if e.value is not None for c in ast.walk(e.value))
+        rep.check(R, weighted and not direct, fi.site(), fi.fq, "second-factor values come from _sample_uniform_b_points only", f"direct draws {direct[:1]}; weighted acceptance used: {weighted}", f"unweighted draw {direct[:1]}")
+        if direct:
+            break
+    if seen == 0:
+        rep.undecided(R, fi.site(), fi.fq, "the dependent branch (not self._is_constant)", "not found")
+
+
 def run(repo: Repo, rep):
+    r10_weighted_second_factor(repo, rep)
+    r9_boundary_grid_shares(repo, rep)
     r6b_dependency_flags(repo, rep)
     from .c02 import r9_motion_params  # a row's points are the uniformly sampled inner points moved with THAT row's motion
     r9_motion_params(repo, rep)
